@@ -20,8 +20,10 @@ package html
 //@   requires[S] l != nil && l.r != nil && bufInv(l.r) && forall(k, 0, len(b), b[k] != 0)
 //@   ensures[S]  result ==> l.r.pos + len(b) <= len(l.r.buf)-1
 //@   ensures[F]  result ==> forall(k, 0, len(b), l.r.buf[l.r.pos+k] == b[k])
+//@   ensures[F]  @nonzero: result ==> forall(k, l.r.pos, l.r.pos + len(b), l.r.buf[k] != 0)
 //@   loop 1 invariant -1 <= rangeindex && rangeindex < len(b) && l.r.pos + rangeindex + 1 <= len(l.r.buf)-1
 //@   loop 1 invariant[F] forall(j, 0, rangeindex+1, l.r.buf[l.r.pos+j] == b[j])
+//@   loop 1 invariant[F] forall(q, l.r.pos, l.r.pos+rangeindex+1, l.r.buf[q] != 0)
 //@   loop 1 decreases len(b) - rangeindex
 
 //@ func Lexer.atCaseInsensitive
